@@ -61,7 +61,7 @@ fn main() {
     if args[0] == "--tiny-c06-files" {
         monitor::install_panic_hook();
         let g = |i: usize, d: u64| args.get(i).and_then(|x| x.parse().ok()).unwrap_or(d);
-        std::process::exit(props::c06::tiny_files(&args[1], g(2, 0), g(3, 1)));
+        std::process::exit(props::c06::tiny_files(&args[1], g(2, 0), g(3, 1), g(4, 0)));
     }
     if args[0] == "--replay" {
         let txt = std::fs::read_to_string(&args[1]).expect("cannot read case file");
